@@ -325,3 +325,42 @@ func VerifPendingPackets(c Conn) int {
 	}
 	return len(ht.pendingPackets)
 }
+
+// VerifKexInitHook, if set, may replace the key exchange algorithm list of a
+// KEXINIT message before it is sent (used to act as a peer that does not
+// offer strict KEX or ext-info).
+var VerifKexInitHook func(isServer, firstKex bool, kexAlgos []string) []string
+
+func verifAdjustKexInit(isServer, firstKex bool, msg *kexInitMsg) {
+	if f := VerifKexInitHook; f != nil {
+		msg.KexAlgos = f(isServer, firstKex, append([]string(nil), msg.KexAlgos...))
+	}
+}
+
+// VerifSendRaw writes p directly on the packet transport under c, bypassing
+// the key exchange gating of the handshake transport, the way a peer that
+// interleaves IGNORE/DEBUG messages with a running key exchange would.
+func VerifSendRaw(c Conn, p []byte) error {
+	var cn *connection
+	switch x := c.(type) {
+	case *connection:
+		cn = x
+	case *ServerConn:
+		cn, _ = x.Conn.(*connection)
+	case *Client:
+		cn, _ = x.Conn.(*connection)
+	}
+	if cn == nil {
+		return errors.New("ssh: not a connection of this package")
+	}
+	ht, ok := cn.transport.(*handshakeTransport)
+	if !ok {
+		return errors.New("ssh: no handshake transport")
+	}
+	ht.mu.Lock()
+	defer ht.mu.Unlock()
+	if ht.writeError != nil {
+		return ht.writeError
+	}
+	return ht.pushPacket(p)
+}
